@@ -254,16 +254,39 @@ pub fn run(tier: Tier) -> i32 {
         }
     }
     let a_classes = Mutex::new(std::collections::BTreeMap::<String, u64>::new());
-    par_for(configs.len() * BASES.len(), |_, i| {
-        let cfg = configs[i / BASES.len()];
-        let base = BASES[i % BASES.len()];
+    // (part A also runs under a three-segment base path; near misses of the base: its segments glued together, one
+    // of them extended, the last one missing - none of them is the base)
+    let a_bases: Vec<&str> = BASES.iter().copied().chain(["/a/b/c", "my/app/"]).collect();
+    par_for(configs.len() * a_bases.len(), |_, i| {
+        let cfg = configs[i / a_bases.len()];
+        let base = a_bases[i % a_bases.len()];
         CONFIG.set(cfg);
         let mut n = 0;
         let mut local = std::collections::BTreeMap::<String, u64>::new();
+        let exact: Vec<String> = base_segs(base).iter().map(|s| s.to_string()).collect();
+        let mut heads: Vec<Vec<String>> = vec![exact.clone(), vec!["other".to_string()]];
+        if exact.len() >= 2 {
+            heads.push(vec![exact.concat()]);
+            for k in 0..exact.len() - 1 {
+                // two neighbouring segments glued
+                let mut v = exact.clone();
+                let glued = format!("{}{}", v[k], v[k + 1]);
+                v.splice(k..k + 2, [glued]);
+                heads.push(v);
+            }
+            heads.push(exact[..exact.len() - 1].to_vec());
+        }
+        if !exact.is_empty() {
+            for k in 0..exact.len() {
+                let mut v = exact.clone();
+                v[k].push('x');
+                heads.push(v);
+            }
+        }
         for rel in &rel_paths {
-            for under_base in [true, false] {
+            for head in &heads {
                 for trailing in ["", "/"] {
-                    let mut segs: Vec<&str> = if under_base { base_segs(base) } else { vec!["other"] };
+                    let mut segs: Vec<&str> = head.iter().map(|s| s.as_str()).collect();
                     segs.extend(rel.iter());
                     let path = format!("/{}{}", segs.join("/"), if segs.is_empty() { "" } else { trailing });
                     let got = match std::panic::catch_unwind(|| verif::get_locale_from_path::<HL>(&path, base)) {
@@ -492,7 +515,7 @@ pub fn run(tier: Tier) -> i32 {
     rep.sample(json!({"locales": ["en", "fr"], "base": "/", "url": "/english/course", "switch": "en -> fr", "expected": "/fr/english/course"}));
     rep.sample(json!({"locales": ["en", "fr", "fr-CA"], "base": "app", "url": "/app/fr-CA/usagers/42/apropos-ca?a=1&b=fr#fr", "switch": "fr-CA -> fr", "expected": "/app/fr/utilisateurs/42/a-propos?a=1&b=fr#fr"}));
     let mut cov = serde_json::Map::new();
-    cov.insert("rule".into(), json!(format!("locale sets {sets:?} (default first; names that are prefixes of each other and of path words) x base paths {BASES:?}; (A) get_locale_from_path on every path of <= 2 (thorough 3) segments over {WORDS:?}, under the base and not, with and without trailing slash, against a whole-segment oracle; (B) explicit-state exploration: state = (URL, locale); from the URL of every page (12 route shapes with static / param / optional (also two in a row, and after a param) / splat / localized segments and the home route instantiated with 4 parameter sets, optional present or not, plus 8 paths no route knows (some are proper prefixes of routes)) in every locale, with and without query and fragment, with and without a route table, (for the default locale also from the URL that carries it as an explicit prefix) every sequence of <= {depth} locale switches, each step calling the real get_new_path with the real previous locale; invariants per transition: result == base + new prefix (none for the default) + localized segments + untouched other segments, query and fragment (so A->B->A returns the original URL), the locale read back from the new URL is the one switched to, and the real route objects match the URL before and after as the same route with the same parameters under the new prefix; with a route table the segment tables are the ones the real <I18nRoute> stored (hook stored_segments); (C) the real <I18nRoute> built natively with i18n_path! segments (home, static, localized, param, optional, splat): generate_routes() == for every locale the plain leptos_router table in that locale's words under the locale prefix, plus the default's table unprefixed; match_nested() on every path of <= 3 (4 after a locale name) segments over locale names, localized words of every locale, glued forms (locale name + more characters in the same segment), truncated and upper-cased names, with and without trailing slash: the answer must be the plain leptos_router answer for the locale whose name equals the first segment exactly, or the default locale's answer for the whole path, or no match when neither exists")));
+    cov.insert("rule".into(), json!(format!("locale sets {sets:?} (default first; names that are prefixes of each other and of path words) x base paths {BASES:?}; (A) get_locale_from_path on every path of <= 2 (thorough 3) segments over {WORDS:?}, under the base, under near misses of it (segments glued, one segment extended, last segment missing; also for the bases /a/b/c and my/app/) and elsewhere, with and without trailing slash, against a whole-segment oracle; (B) explicit-state exploration: state = (URL, locale); from the URL of every page (12 route shapes with static / param / optional (also two in a row, and after a param) / splat / localized segments and the home route instantiated with 4 parameter sets, optional present or not, plus 8 paths no route knows (some are proper prefixes of routes)) in every locale, with and without query and fragment, with and without a route table, (for the default locale also from the URL that carries it as an explicit prefix) every sequence of <= {depth} locale switches, each step calling the real get_new_path with the real previous locale; invariants per transition: result == base + new prefix (none for the default) + localized segments + untouched other segments, query and fragment (so A->B->A returns the original URL), the locale read back from the new URL is the one switched to, and the real route objects match the URL before and after as the same route with the same parameters under the new prefix; with a route table the segment tables are the ones the real <I18nRoute> stored (hook stored_segments); (C) the real <I18nRoute> built natively with i18n_path! segments (home, static, localized, param, optional, splat): generate_routes() == for every locale the plain leptos_router table in that locale's words under the locale prefix, plus the default's table unprefixed; match_nested() on every path of <= 3 (4 after a locale name) segments over locale names, localized words of every locale, glued forms (locale name + more characters in the same segment), truncated and upper-cased names, with and without trailing slash: the answer must be the plain leptos_router answer for the locale whose name equals the first segment exactly, or the default locale's answer for the whole path, or no match when neither exists")));
     cov.insert("exhaustive".into(), json!(true));
     cov.insert("states".into(), json!(n_states.max(1)));
     cov.insert("depth".into(), json!(depth));
